@@ -100,6 +100,28 @@ def JiggWellFormedStatement : Prop :=
         ((p.1.ccgs.map spanIds).flatten).Nodup) ∧
     ((ss.map fun s => tokenIds s ++ (s.ccgs.map spanIds).flatten ++ s.ccgs.filterMap (fun c => attr c.attrs "id")).flatten).Nodup
 
+/-- the token does not bring its own `id` entry (the encoder copies every token entry into the
+    `<token>` element after its own `start`, `cat`, `id`, so such an entry would replace the id) -/
+def NoIdKey (tok : Token) : Prop := ∀ kv ∈ tok, kv.1 ≠ lit "id"
+
+/-- CORRECTED form of `JiggWellFormedStatement`, which is false as written: a token of the first
+    tree of a sentence that carries an `id` entry overrides the encoder's token id, so two such
+    tokens give duplicate token ids (see `C15.jigg_wellformed_original_false`).  The only change is
+    the extra hypothesis on the tokens of the first tree of each sentence (the tree whose tokens
+    the encoder prints); the conclusion is verbatim the original one. -/
+def JiggWellFormedStatement' : Prop :=
+  ∀ (useSymbol : Bool) (batch : List (List Tree)) (ss : List JSentence),
+    (∀ trees ∈ batch, ∀ t ∈ trees, ∀ t' ∈ trees, t.numLeaves = t'.numLeaves) →
+    (∀ trees ∈ batch, ∀ t ∈ trees.head?, AllToks NoIdKey t) →
+    jiggOf useSymbol batch = .ok ss →
+    ss.length = batch.length ∧
+    (∀ p ∈ ss.zip batch,
+        p.1.ccgs.length = p.2.length ∧ (tokenIds p.1).Nodup ∧
+        (∀ t ∈ p.2.head?, (tokenIds p.1).length = t.numLeaves) ∧
+        (∀ q ∈ p.1.ccgs.zip p.2, CcgWellFormed (tokenIds p.1) q.2.numLeaves q.1) ∧
+        ((p.1.ccgs.map spanIds).flatten).Nodup) ∧
+    ((ss.map fun s => tokenIds s ++ (s.ccgs.map spanIds).flatten ++ s.ccgs.filterMap (fun c => attr c.attrs "id")).flatten).Nodup
+
 /-! ### reading Japanese Jigg XML back -/
 
 /-- categories, shape and words -/
